@@ -28,7 +28,7 @@ HEADLINE = ["fault_cases", "faults_fired", "kind_exit", "kind_raise", "kind_clos
 
 def plan(tier, seed, scale):
     q = tier == "quick"
-    return {"n_cases": 1, "until": 3 if q else 4, "catalogue": [0, 1, 2, 4, 5, 6] if q else [0, 1, 2, 3, 4, 5, 6],
+    return {"n_cases": 1, "until": 3 if q else 4, "catalogue": [0, 1, 2, 4, 5, 6, 7] if q else [0, 1, 2, 3, 4, 5, 6, 7],
             "repeat": 1 if q else 3, "timeout_s": 1500 if q else 10800,
             "gen_scenarios": int((96 if q else 2400) * scale), "gen_max_requests": 8 if q else 14,
             "gen_profiles": ["core", "flat", "events", "data", "par", "tiny"]}
@@ -81,6 +81,17 @@ def catalogue(k: int, until: int):
                          {"src": "A", "se": "e0", "sa": "o", "dst": "C", "de": "e0", "da": "i"}]}
         scn["fault_delay"] = 0.1       # in-process faults fire 0.1 s into the request (see sims.step)
         remote = ["A", "B"]
+    elif k == 7:
+        # like 6, but the source is in-process and practically never answers the agent's asynchronous request:
+        # whatever mosaik started to serve that request is still outstanding when the run is torn down
+        scn = {"sims": [sim("A", "time-based", {}, {"o": "persistent"}, slow_async_get_data=3600.0),
+                        sim("B", "time-based", {"i": "nontrigger"}, {},
+                            agent={"targets": [], "p_set": 0.0, "get": [["A.e0", "o"]], "p_get": 1.0}),
+                        sim("C", "time-based", {"i": "nontrigger"}, {})],
+               "conns": [{"src": "A", "se": "e0", "sa": "o", "dst": "B", "de": "e0", "da": "i", "async": True},
+                         {"src": "A", "se": "e0", "sa": "o", "dst": "C", "de": "e0", "da": "i"}]}
+        scn["fault_delay"] = 0.1
+        remote = ["B"]
     elif k == 5:
         # simulators announcing an older API version (wrapped in version adapters): remote 2.2, in-process 2.0
         scn = {"sims": [dict(sim("A", "time-based", {}, {"o": "persistent"}), api_version="2.2"),
@@ -95,7 +106,7 @@ def catalogue(k: int, until: int):
                "conns": [{"src": "A", "se": "e0", "sa": "o", "dst": "B", "de": "e0", "da": "i"}]}
         remote = []                 # all in-process
     scn["until"] = until
-    scn["config"] = {"cache": k != 6, "lazy": True, "mosaik_config": {"start_timeout": 90, "stop_timeout": 5}}
+    scn["config"] = {"cache": k not in (6, 7), "lazy": True, "mosaik_config": {"start_timeout": 90, "stop_timeout": 5}}
     return scn, remote
 
 
@@ -136,6 +147,9 @@ def run_fault_case(scn: dict, remote: List[str], fault: Optional[dict], watchdog
     del vbuild.LOGS[:]
     rdir = tempfile.mkdtemp(prefix="vlab-c14-")
     scn = json.loads(json.dumps(scn))
+    if not fault:
+        for s in scn["sims"]:
+            s["beh"].pop("slow_async_get_data", None)     # the fault-free run (request counting) must complete
     if fault:
         for s in scn["sims"]:
             if s["sid"] == fault["sid"]:
@@ -308,7 +322,7 @@ def judge(scn: dict, remote: List[str], fault: dict, out: dict) -> List[dict]:
 
 
 GEN_HOWS = ["raise", "raise_TypeError", "raise_ValueError", "raise_KeyError", "raise_ConnectionError",
-            "raise_AssertionError"]
+            "raise_AssertionError", "raise_CancelledError"]
 
 
 def judge_generated(scn: dict, tr: dict, fault: dict) -> List[dict]:
@@ -520,8 +534,11 @@ def run_slice(job: dict) -> dict:
         for s in scn["sims"]:
             sid = s["sid"]
             kinds = ["exit", "raise", "close"] if sid in remote else \
-                ["raise", "raise_TypeError", "raise_ValueError", "raise_KeyError", "raise_ConnectionError"]
+                ["raise", "raise_TypeError", "raise_ValueError", "raise_KeyError", "raise_ConnectionError",
+                 "raise_CancelledError"]
             for r in range(R.get(sid, 0)):
+                if k == 7 and not (sid == "C" and r == 1):
+                    continue      # everything after the agent's first request is unreachable here by construction
                 for how in kinds:
                     for rep in range(job["repeat"]):
                         cases.append((k, sid, r, how, rep))
@@ -631,7 +648,7 @@ def decide(m, tier):
 
 def evidence(m, tier, seed):
     return {"level": "fault_enumeration", "coverage": {
-        "rule": "catalogue of 6 (thorough: 7) scenarios (one with simulators announcing API 2.x, i.e. wrapped in version adapters) with 2-4 simulators, remote (real processes over TCP) and "
+        "rule": "catalogue of 7 (thorough: 8) scenarios (one with simulators announcing API 2.x, i.e. wrapped in version adapters) with 2-4 simulators, remote (real processes over TCP) and "
                 "in-process mixes; a fault-free run counts the requests R_S each simulator receives (setup_done, "
                 "steps, get_data); then EVERY (simulator, request index < R_S, kind) with kind in {process exit, "
                 "exception in handler, connection abort} for remote and exceptions {RuntimeError, TypeError, ValueError, "
